@@ -167,10 +167,25 @@ struct CaseOut {
     violation: Option<(String, String)>,
     class: &'static str,
     compared: u64,
+    second_kill: bool,
 }
 
-async fn check_state<const N: usize>(cfg: &Cfg, dir: &Path, rec: &Recording, cs: &CrashState, installed: &BTreeMap<PathBuf, Vec<u8>>, base: &Path) -> CaseOut {
-    let mut out = CaseOut { violation: None, class: "clean", compared: 0 };
+fn copy_dir(from: &Path, to: &Path) {
+    let _ = std::fs::create_dir_all(to);
+    if let Ok(rd) = std::fs::read_dir(from) {
+        for e in rd.flatten() {
+            let p = e.path();
+            if p.is_file() {
+                let _ = std::fs::copy(&p, to.join(e.file_name()));
+            } else if p.is_dir() {
+                copy_dir(&p, &to.join(e.file_name()));
+            }
+        }
+    }
+}
+
+async fn check_state<const N: usize>(cfg: &Cfg, dir: &Path, rec: &Recording, cs: &CrashState, installed: &BTreeMap<PathBuf, Vec<u8>>, base: &Path, second_kill: bool) -> CaseOut {
+    let mut out = CaseOut { violation: None, class: "clean", compared: 0, second_kill: false };
     let mut d: Driver<N> = Driver::new(dir.to_path_buf(), cfg.clone(), 0xC06);
     d.model.relaxed = true;
     tap::arm(dir, false, false);
@@ -282,6 +297,32 @@ async fn check_state<const N: usize>(cfg: &Cfg, dir: &Path, rec: &Recording, cs:
     }
     if let Err(m) = d.check(S_ALL_QUERIES).await {
         fail!(format!("not-usable/{}", m.sig), m.detail);
+    }
+    // "writes made after recovery survive further restarts": a process-kill image of the recovered directory
+    // (worker quiescent, nothing closed) is opened elsewhere and must answer like the live session
+    if second_kill {
+        let _ = d.st().verif_barrier(true).await;
+        let dir2 = dir.with_extension("k2");
+        let _ = std::fs::remove_dir_all(&dir2);
+        copy_dir(dir, &dir2);
+        let mut d2: Driver<N> = Driver::new(dir2.clone(), cfg.clone(), 0xC06);
+        d2.model = d.model.clone();
+        d2.tainted = d.tainted.clone();
+        let r = async {
+            d2.open(false).await.map_err(|m| ("init-failed".to_string(), m.detail))?;
+            d2.check(S_ALL_QUERIES).await.map_err(|m| (m.sig, m.detail))?;
+            d2.close().await.map_err(|m| ("close-failed".to_string(), m.detail))?;
+            Ok::<(), (String, String)>(())
+        }
+        .await;
+        if let Some(s) = d2.storage.take() {
+            let _ = tokio::time::timeout(std::time::Duration::from_secs(5), s.close()).await;
+        }
+        let _ = std::fs::remove_dir_all(&dir2);
+        out.second_kill = true;
+        if let Err((sig, detail)) = r {
+            fail!(format!("second-kill-after-recovery/{}", sig), format!("after recovery, one put and one delete, and a second process kill: {}", detail));
+        }
     }
     if let Err(m) = d.close().await {
         fail!("close-failed-after-recovery".to_string(), m.detail);
@@ -434,7 +475,7 @@ fn eval_history<const N: usize>(ctx: &Ctx, sh: &mut Shard, rng: &mut Rng, cfg: &
             let mut c2 = cfg.clone();
             c2.validate_data = si % 2 == 0;
             c2.ignore_corrupted = si % 5 == 4;
-            let res = block_on_catch(c2.mt, check_state::<N>(&c2, &work, &rec, cs, &installed, &base));
+            let res = block_on_catch(c2.mt, check_state::<N>(&c2, &work, &rec, cs, &installed, &base, c2.ignore_corrupted || si % 3 == 0));
             sh.evaluations += 1;
             let torn = !cs.cuts.is_empty() || !cs.others_full;
             let cuts_desc: Vec<String> = cs.cuts.iter().map(|(p, l)| format!("{}@{}", p.file_name().unwrap().to_string_lossy(), l)).collect();
@@ -447,6 +488,9 @@ fn eval_history<const N: usize>(ctx: &Ctx, sh: &mut Shard, rng: &mut Rng, cfg: &
                 Ok(out) => {
                     sh.add(&format!("init_outcome_{}", out.class), 1);
                     sh.add("queries_compared", out.compared);
+                    if out.second_kill {
+                        sh.add("second_kill_images_checked", 1);
+                    }
                     if sh.samples.len() < 2 && torn && out.class != "clean" {
                         sh.sample(json!({"history": history_short(ops), "crash_after_event": point, "cuts": cuts_desc, "others": if cs.others_full { "full" } else { "synced-only" }, "outcome": out.class}));
                     }
